@@ -278,6 +278,14 @@ func (g *G) Data() string {
 	return fmt.Sprintf("<%d>", g.step)[:min(5, len(fmt.Sprintf("<%d>", g.step)))] + strings.Repeat("x", g.R.IntN(4))
 }
 
+// dataOrEmpty is Data, or one time in eight the empty string (a write of zero bytes changes nothing, wherever the offset is).
+func (g *G) dataOrEmpty() string {
+	if g.R.IntN(8) == 0 {
+		return ""
+	}
+	return g.Data()
+}
+
 // Next draws the next call.
 func (g *G) Next() fsx.Op {
 	for {
@@ -338,11 +346,11 @@ func (g *G) FileOp() fsx.Op {
 	case x < 34:
 		return fsx.Op{K: "F.ReadAt", H: h, N: lens[g.R.IntN(len(lens))], M: offs[g.R.IntN(len(offs)-1)]}
 	case x < 46:
-		return fsx.Op{K: "F.Write", H: h, Data: g.Data()}
+		return fsx.Op{K: "F.Write", H: h, Data: g.dataOrEmpty()}
 	case x < 52:
-		return fsx.Op{K: "F.WriteAt", H: h, Data: g.Data(), N: offs[g.R.IntN(len(offs)-1)]}
+		return fsx.Op{K: "F.WriteAt", H: h, Data: g.dataOrEmpty(), N: offs[g.R.IntN(len(offs)-1)]}
 	case x < 56:
-		return fsx.Op{K: "F.WriteString", H: h, Data: g.Data()}
+		return fsx.Op{K: "F.WriteString", H: h, Data: g.dataOrEmpty()}
 	case x < 66:
 		return fsx.Op{K: "F.Seek", H: h, N: offs[g.R.IntN(len(offs)-1)], M: int64(g.R.IntN(3))}
 	case x < 72:
